@@ -83,6 +83,10 @@ def _serialize_element(
             if prop.required and (prop.source or name) not in required
         )
         schema["required"] = required
+        schema["properties"] = {
+            prop.source or name: prop
+            for name, prop in schema["properties"].items()
+        }
     if not schema.get("required", True):
         del schema["required"]
     if isinstance(element, CompositionElement):
